@@ -6,6 +6,7 @@ Line-protocol driver for property C05: executes `Model/ChainStore.lean` on the
 op lines the Go harness produced from the real chain (harness/cmd/c05).
 
   genesis <hash>                                   fresh store holding the genesis block (label b0)
+  cfg p008 <0|1>                                   fork configuration: Proposal008 (executed-tx check) off/on
   tx <label>                                       declare a transaction
   blk <label> <hash> <parent> <height> <totalQN> <pv> <txs|-> ok|badroot
   pool <tx>                                        TxPool.AddTransaction
@@ -83,7 +84,7 @@ def view (d : D) : String :=
     | some bh => some (p.1 ++ ":" ++ (if pend then "p" else "") ++ "e@" ++ d.label bh)
     | none => if pend then some (p.1 ++ ":p") else none)
   "head=" ++ head ++ " cur=" ++ cur ++ " marks=" ++ marks ++ " H=" ++ joinOrDash H ++ " Q=" ++ joinOrDash Q ++
-    " VH=" ++ joinOrDash VH ++ " TC=" ++ joinOrDash TC ++ " B=" ++ joinOrDash B ++ " V=" ++ joinOrDash V ++
+    " VH=" ++ joinOrDash VH ++ " TC=" ++ (if d.maxH ≥ 90 then "~" else joinOrDash TC) ++ " B=" ++ joinOrDash B ++ " V=" ++ joinOrDash V ++
     " F=" ++ joinOrDash F ++ " T=" ++ joinOrDash T
 
 def parseTxs (d : D) (w : String) : Option (List Nat) :=
@@ -116,6 +117,9 @@ def step (d : D) (line : String) : D × String :=
       let g : Block := { hash := beToNat bs, pre := 0, height := 0, totalQN := 0, pv := 0, txs := [], valid := true }
       ({ st := genesisState g, blocks := [("b0", g)], txs := [], maxH := 0, live := true }, "ok")
     | none => (d, "bad-op")
+  | ["cfg", "p008", v] =>
+    if !d.live || (v != "0" && v != "1") then (d, "bad-op")
+    else ({ d with st := { d.st with p008 := v == "1" } }, "ok")
   | ["tx", l] =>
     if !d.live || (d.tx? l).isSome then (d, "bad-op")
     else ({ d with txs := d.txs ++ [(l, d.txs.length)] }, "ok")
